@@ -272,7 +272,10 @@ class Gen:
         n = length or r.randint(15, 60)
         evs = []
         # operation mix per profile
-        mix = dict(write=0.33, read=0.2, worker=0.2, sweep=0.05, drain=0.04, advance=0.06, poll=0.03, obs=0.03, run=0.05, shutdown=0.01)
+        mix = dict(write=0.33, read=0.2, worker=0.2, sweep=0.05, drain=0.04, advance=0.06, poll=0.03, obs=0.03, run=0.05, shutdown=0.01, iter=0.0)
+        if profile in ("general", "reads", "ttl", "queue1"):
+            mix.update(iter=0.07)
+        open_iters = {}
         if profile == "reads":
             mix.update(read=0.5, write=0.15, drain=0.1)
         if profile == "ttl":
@@ -300,6 +303,17 @@ class Gen:
                     evs.append("worker")
             elif kind == "read":
                 evs.append(self.read_call(tid, keys))
+            elif kind == "iter":
+                # a lazy iterator kept open across other events; repeated keys on purpose
+                if open_iters.get(tid, 0) > 0:
+                    evs.append("call %d iter_next" % tid)
+                    open_iters[tid] -= 1
+                else:
+                    ks = [r.choice(keys + [99]) for _ in range(r.randint(2, 4))]
+                    if r.random() < 0.6:
+                        ks[r.randrange(len(ks))] = ks[0]
+                    evs.append("call %d %s %s" % (tid, r.choice(["iter_open", "iter_open", "iter_open_map"]), ",".join(str(x) for x in ks)))
+                    open_iters[tid] = len(ks) + r.randint(0, 1)
             elif kind == "worker":
                 evs.append("worker")
             elif kind == "sweep":
